@@ -344,7 +344,14 @@ fn run_item(fx: &mut Fixture, shared: &Arc<Shared>, methods: &[&'static str], it
     let mut info = CaseInfo::default();
     let mut schedules = 0u64;
     let mut desc = json!({"A": a, "B": b, "mid_block": mid});
+    // a fresh populated chain for every triple: earlier triples (reorg, mine, clearCaches ...) must not
+    // erode the objects the requests refer to (a lookup of a block that no longer exists skips code paths)
+    *fx = Fixture::new("c11");
     for k in 1..=max_k {
+        // within a triple: re-create the chain as soon as the referenced block is gone
+        if !fx.inst.call("eth_getBlockByHash", json!([fx.ctx.block_hash, false])).is_ok() {
+            *fx = Fixture::new("c11");
+        }
         fx.refresh(mid);
         let pa = well_typed(a, &fx.ctx);
         let mut cb = fx.ctx.clone();
